@@ -754,12 +754,60 @@ func (ff *FnFacts) pathOperand(path []*ssa.BasicBlock) (pt *phiTest, v ssa.Value
 // PathFeasible: can control, having run through path, continue to next? False only when the last block of the path
 // tests a phi and the operand selected by the path cannot make the test come out that way.
 func (ff *FnFacts) PathFeasible(path []*ssa.BasicBlock, next *ssa.BasicBlock) bool {
+	if ff.contradictsPath(path, next) {
+		return false
+	}
 	pt, v, facts, ok := ff.pathOperand(path)
 	if !ok {
 		return true
 	}
 	p := path[len(path)-1]
 	return ff.compatible(pt, v, next == p.Succs[0], facts)
+}
+
+// contradictsPath: the edge to next asserts true(t) / false(t) for a term over parameters and constants only (so its
+// value cannot have changed) of which an earlier edge of the path asserted the opposite — `if !batch {…}` followed
+// later by `if !batch && …`.
+func (ff *FnFacts) contradictsPath(path []*ssa.BasicBlock, next *ssa.BasicBlock) bool {
+	if len(path) < 2 {
+		return false
+	}
+	last := path[len(path)-1]
+	var cur []Fact
+	for _, f := range ff.edge[[2]*ssa.BasicBlock{last, next}] {
+		if (f.Kind == "true" || f.Kind == "false") && f.A != nil && stableTerm(f.A) {
+			cur = append(cur, f)
+		}
+	}
+	if len(cur) == 0 {
+		return false
+	}
+	for i := 0; i+1 < len(path); i++ {
+		for _, f := range ff.edge[[2]*ssa.BasicBlock{path[i], path[i+1]}] {
+			if f.Kind != "true" && f.Kind != "false" {
+				continue
+			}
+			for _, c := range cur {
+				if c.Kind != f.Kind && c.A.String() == f.A.String() {
+					return true
+				}
+			}
+		}
+	}
+	return false
+}
+
+// stableTerm: built from parameters and constants only.
+func stableTerm(t *Term) bool {
+	ok := true
+	t.Walk(func(x *Term) {
+		switch x.Op {
+		case "param", "const", "un", "bin":
+		default:
+			ok = false
+		}
+	})
+	return ok
 }
 
 // PathTestFacts: what crossing the test at the end of path toward next says about the operand the path selected
